@@ -8,7 +8,6 @@ import (
 	"sort"
 	"strings"
 	"syscall"
-
 )
 
 // TNode is the specification of one filesystem node the harness builds.
